@@ -394,6 +394,8 @@ func registerIntrinsics(in *Interp) {
 	I["unsafe.String"] = func(in *Interp, fr *frame, a []Val) Val {
 		panic(in.unsupported("unsafe.String"))
 	}
+	I["internal/stringslite.Clone"] = func(in *Interp, fr *frame, a []Val) Val { return a[0] }
+	I["strings.Clone"] = I["internal/stringslite.Clone"]
 	I["internal/abi.NoEscape"] = func(in *Interp, fr *frame, a []Val) Val { return a[0] }
 
 	// ---- errors ----
